@@ -118,7 +118,7 @@ GAPS = {
     'C25': ['KSfunction.compute/derivatives and KSComp.compute/compute_partials: bounded exhaustive tier only', 'exact gradients of jax ks_max/ks_min (jax AD)', 'exp overflow for huge rho*(g-m) is excluded by the shift but floats are treated as reals'],
     'C30': ['derivatives of the jax smooth helpers (jax AD)', 'second-order effects of a finite complex step', 'n-d arrays (boolean masks over more than one axis are outside the NumPy model) and the axis argument of cs_safe.norm: BOUNDED tier only'],
     'C06': ['_find_unit / simplify_unit / SI prefixes: bounded exhaustive tier only (regex + eval are outside the subset)', 'fractional powers in PhysicalUnit.__pow__', 'has_val_mismatch', 'the numeric content of unit_library.ini'],
-    'C13': ['Subjac.set_col for CSR / CSC / diagonal / dense storage and _CheckingJacobian.set_col: bounded exhaustive tier only (COOSubjac._set_coo_col is proved; its counter-model search is too slow for z3, so a broken body shows up through the boosted native sampling / bounded tier rather than a refutation)', 'directional derivative checks (directional_fd_fwd / directional_fwd_rev branches)', '_MagnitudeData bookkeeping values', 'deriv_display text rendering', 'which arrays check_partials/check_totals pass in as J_fwd/J_rev/J_fd'],
+    'C13': ['Subjac.set_col for CSR storage (scipy tocsc/tocsr conversions), the COO/OMCOO wrappers that pass data/row/col to _set_coo_col, dense storage, and _CheckingJacobian.set_col (which sub-jacobian gets which slice of the column): bounded exhaustive tier only (COOSubjac._set_coo_col, CSCSubjac.set_col and DiagonalSubjac.set_col are proved; the counter-model search of _set_coo_col is too slow for z3, so a broken body shows up through the boosted native sampling / bounded tier rather than a refutation)', 'directional derivative checks (directional_fd_fwd / directional_fwd_rev branches)', '_MagnitudeData bookkeeping values', 'deriv_display text rendering', 'which arrays check_partials/check_totals pass in as J_fwd/J_rev/J_fd'],
     'C27': ['types=list (element-wise values check)', 'set_function preprocessing', 'declare() default validation and argument checks', 'update()/undeclare()/set()', 'deprecation warning text'],
     'C22': ['Driver._compute_con_viol (linear-first concatenation, exception fallback)', 'OptimizerVector.update_from_model (assumed to deliver model values)', 'multi-constraint vectors: one constraint slice [a,b) of a larger vector is verified, other slices are covered by the frame only'],
     'C20': ['unit part of total_scaler/total_adder (System._setup_driver_units, add_design_var/add_response normalisation)', '_TotalJacInfo._identify_unit_active_vars (which names get a unit factor)', 'Autoscaler._compute_scaled_bounds slice layout loop', 'OptimizerVector.update_from_model / create_from_model', 'Driver._get_voi_val / _set_design_var unit branches'],
